@@ -3,6 +3,7 @@ import Kopf.Drv.C02
 import Kopf.Drv.C05
 import Kopf.Drv.C14
 import Kopf.Model.C03_Loop
+import Kopf.Model.C03_Relist
 open Lean
 namespace Kopf.Drv.C03
 open Kopf.C03 Kopf
@@ -31,7 +32,7 @@ def recsJson (univ : List String) (P : Kopf.C02.Store) : Json :=
 
 /-- the passes of the closed loop until no event is pending (or `fuel` turns); the FIRST turn may start with a
     carried patch (`loopStepC`) or be held back by the consistency barrier (`loopStepI`) -/
-def runLoop (env : Env) (univ : List String) : Nat → Carried → Option (Bool × Int) → State Nat → List Json → List Json × State Nat
+def runLoop (env : Env) (univ : List String) (rl : List Int) : Nat → Carried → Option (Bool × Int) → State Nat → List Json → List Json × State Nat
   | 0, _, _, s, acc => (acc.reverse, s)
   | fuel + 1, cr, inc, s, acc =>
       if !s.pending then (acc.reverse, s)
@@ -43,9 +44,13 @@ def runLoop (env : Env) (univ : List String) : Nat → Carried → Option (Bool 
         let c := causeOf s
         let r := pass env s
         let held := (match inc with | some (true, _) => true | _ => false) && !s.gone && !adjusting env s && env.prematch
-        let s' := match inc with
-          | some (ne, dl) => if held then loopStepI env ne dl s else loopStepC env cr s
-          | none => loopStepC env cr s
+        -- a re-listing of the object as it is that falls into this turn's sleep (`loopStepR`): ordinary first turns only
+        let hit := if cr == .none && inc.isNone then rl.find? (fun t => inSleep env s t) else none
+        let s' := match hit with
+          | some t => loopStepR env t s
+          | none => match inc with
+            | some (ne, dl) => if held then loopStepI env ne dl s else loopStepC env cr s
+            | none => loopStepC env cr s
         -- does the carried patch / the barrier make this turn skip the handlers?
         let skip := held || (cr != .none && !s.gone && !adjusting env s && env.prematch)
         let row := Json.mkObj [
@@ -70,7 +75,9 @@ def runLoop (env : Env) (univ : List String) : Nat → Carried → Option (Bool 
         -- lookup re-evaluates all earlier passes, exponentially in the number of turns)
         let tbl := univ.filterMap (fun i => (s'.P i).map (fun rc => (i, rc)))
         let s'' : State Nat := { s' with P := C02.lookupD tbl }
-        runLoop env univ fuel .none none s'' (row :: acc)
+        -- a re-listing is one event: consumed by the turn it interrupted
+        let rl' := match hit with | some t => rl.filter (fun x => x != t) | none => rl
+        runLoop env univ rl' fuel .none none s'' (row :: acc)
 
 /-- turns of the loop whose environment is recomputed from the state (`loopStepG envOfU`) -/
 def runG : Nat → State Nat → List Json → List Json
@@ -143,7 +150,12 @@ def handle : DrvHandler := fun op args =>
             let dl ← jInt? (← jField? v "deadline")
             pure (some (ne, dl))
         | .error _ => some none
-      let (rows, s) := runLoop env univ fuel carried inconsistent s0 []
+      -- moments at which the object was re-listed as it is (ticks); absent = none
+      let relists ← match j.getObjVal? "relists" with
+        | .ok (.arr a) => a.toList.mapM jInt?
+        | .ok _ => none
+        | .error _ => some []
+      let (rows, s) := runLoop env univ relists fuel carried inconsistent s0 []
       some (ok (Json.mkObj [
         ("passes", .arr rows.toArray),
         ("quiescent", .bool (!s.pending)),
